@@ -119,6 +119,9 @@ type c08Pkg struct {
 	Files [][]string `json:"imports_per_file"`
 	Shape string     `json:"shape"`
 	Atom  string     `json:"atom,omitempty"` // "base-name": some import has '.'/'-' in its last component
+	// Partial: the package has one unsupported function and is translated with -ignore-errors; header, footer
+	// and Require lines of the partial file are judged like those of a complete one
+	Partial bool `json:"partial,omitempty"`
 
 	importPath string
 	expFfis    []string
@@ -267,6 +270,9 @@ func (m *c08Module) source(p *c08Pkg, fi int) string {
 		ret += " + " + t
 	}
 	fmt.Fprintf(&b, "\treturn %s\n}\n", ret)
+	if p.Partial && fi == 0 {
+		b.WriteString("\nfunc Unsupported(x uint64) uint64 {\n\tswitch x {\n\tcase 1:\n\t\treturn 2\n\t}\n\treturn x\n}\n\nfunc After(x uint64) uint64 {\n\treturn x + 2\n}\n")
+	}
 	for _, e := range extra {
 		b.WriteString("\n" + e)
 	}
@@ -453,6 +459,16 @@ func c08MainModule() *c08Module {
 	// diamond whose sides reach different things: one side plain, other side FFI
 	for _, f := range c08FfiKeys[1:] {
 		m.add("dia/mix_"+f, "diamond none|"+f, []string{m.local("dia/l_none"), m.local("dia/r_" + f)})
+	}
+	// partial outputs: one unsupported function among good ones, per FFI and for two import layouts
+	for fi, f := range c08FfiKeys {
+		var imp0 []string
+		if f != "none" {
+			imp0 = []string{c08FfiShort[f]}
+		}
+		m.add("part/a_"+f, "partial output, ffi "+f, imp0).Partial = true
+		files := m.layout(fi, m.carrierImport(c08Carrier{f, 1}), "", m.decor(fi+1))
+		m.add("part/b_"+f, "partial output, ffi "+f+" behind a plain package, decorated", files...).Partial = true
 	}
 	// the known-defect atom: imports whose LAST component has '.'/'-'
 	odd := []string{m.local("odd/my-pkg"), m.local("odd/v2.1"), m.local("in-ner/a.b-c"), m.local("odd/trusted_d-x")}
@@ -769,9 +785,13 @@ func (c *c08Run) judgeFile(m *c08Module, p *c08Pkg, src string, v *c08Verdict) {
 
 // runBatch translates pkgs (which must all translate) in one invocation and judges them.
 func (c *c08Run) runBatch(m *c08Module, pkgs []*c08Pkg, tag string, depth int) {
+	c.runBatchFlags(m, pkgs, tag, depth, nil)
+}
+
+func (c *c08Run) runBatchFlags(m *c08Module, pkgs []*c08Pkg, tag string, depth int, flags []string) {
 	r := c.r
 	out := filepath.Join(r.Scratch, "c08out", m.Name, tag)
-	args := []string{"-out", out}
+	args := append([]string{"-out", out}, flags...)
 	for _, p := range pkgs {
 		args = append(args, "./"+p.Dir)
 	}
@@ -786,7 +806,7 @@ func (c *c08Run) runBatch(m *c08Module, pkgs []*c08Pkg, tag string, depth int) {
 			// find the package(s) responsible: every package on its own
 			r.Count("batches_crashed_and_split", 1)
 			core.Parallel(len(pkgs), 16, func(i int) {
-				c.runBatch(m, pkgs[i:i+1], fmt.Sprintf("%s-solo%d", tag, i), depth+1)
+				c.runBatchFlags(m, pkgs[i:i+1], fmt.Sprintf("%s-solo%d", tag, i), depth+1, flags)
 			})
 			return
 		}
@@ -824,7 +844,7 @@ func (c *c08Run) runBatch(m *c08Module, pkgs []*c08Pkg, tag string, depth int) {
 				if depth == 0 && len(pkgs) > 1 {
 					// once more on its own (a transient `go list` failure must not cost the case)
 					r.Count("untranslated_packages_retried_alone", 1)
-					c.runBatch(m, []*c08Pkg{p}, fmt.Sprintf("%s-retry-%s", tag, strings.ReplaceAll(p.Dir, "/", "_")), depth+1)
+					c.runBatchFlags(m, []*c08Pkg{p}, fmt.Sprintf("%s-retry-%s", tag, strings.ReplaceAll(p.Dir, "/", "_")), depth+1, flags)
 					continue
 				}
 				if strings.Contains(iv.res.Stderr, "package uses multiple ffis") {
@@ -955,7 +975,7 @@ func (c *c08Run) runModule(m *c08Module) error {
 		return err
 	}
 	gen := m.generatedGraph()
-	var normal, refused []*c08Pkg
+	var normal, refused, partial []*c08Pkg
 	var companion *c08Pkg
 	for _, p := range m.Pkgs {
 		p.expFfis = refFfis(gen, p.importPath)
@@ -979,6 +999,8 @@ func (c *c08Run) runModule(m *c08Module) error {
 		r.Count("packages_cross_checked_with_go_list", 1)
 		if len(p.expFfis) >= 2 {
 			refused = append(refused, p)
+		} else if p.Partial {
+			partial = append(partial, p)
 		} else {
 			normal = append(normal, p)
 			if companion == nil && len(p.allImports()) == 0 && p.Atom == "" {
@@ -998,6 +1020,9 @@ func (c *c08Run) runModule(m *c08Module) error {
 	}
 	core.Parallel(len(batches), 8, func(i int) { c.runBatch(m, batches[i], fmt.Sprintf("b%d", i), 0) })
 	core.Parallel(len(refused), 16, func(i int) { c.runRefused(m, refused[i], fmt.Sprintf("r%d", i), companion) })
+	if len(partial) > 0 {
+		c.runBatchFlags(m, partial, "partial", 0, []string{"-ignore-errors"})
+	}
 	return nil
 }
 
